@@ -318,7 +318,7 @@ def process(ctx, scs):
 def load_corpus():
     d = leanside.ROOT / 'corpus' / PID
     out = []
-    for f in (sorted(d.glob('*.json')) if d.is_dir() else []):
+    for f in (sorted(x for x in d.glob('*.json') if not x.name.startswith(('seeded-', 'regress-'))) if d.is_dir() else []):
         sc = json.loads(f.read_text())['scenario']
         out.append(dict(sc, res=None))
     return out
